@@ -129,6 +129,7 @@ def run_tlc(
         "java",
         "-XX:+UseParallelGC",
         "-Xmx" + heap,
+        "-Djava.io.tmpdir=" + meta,  # TLC/SANY scratch dirs go away with the metadir
         "-cp",
         JAR + ":" + DEPS,
         "tlc2.TLC",
